@@ -24,6 +24,15 @@ def discretize_flow(method: str, g, perm, bc, eta=None, inverter=None, extra=Non
     return data[pp.DISCRETIZATION_MATRICES][KW], data
 
 
+def rediscretize(method: str, g, data):
+    """Second call on the SAME data dictionary (reuse of all argument objects)."""
+    import porepy as pp
+
+    discr = pp.Mpfa(KW) if method == "mpfa" else pp.Tpfa(KW)
+    discr.discretize(g, data)
+    return data[pp.DISCRETIZATION_MATRICES][KW]
+
+
 def linear_data(g, info, K, is_dir, p0, grad):
     """Cell values, boundary data vector (Dirichlet: p at face centre; Neumann: outward
     integrated flux) and exact face fluxes for p = p0 + grad.x, constant K."""
